@@ -1067,6 +1067,76 @@ static void do_entry(int k, ostore *o, vf_rng *r)
 	snap_free(&before);
 }
 
+static const char *numtexts[] = { "1e39", "-3.5e38", "1e300", "3.4e38", "0", "1", "5", "7", "10", "255", "256", "300", "-1", "70000", "0.5", "0.25", "1.5", "2.5e3", "1e-3", "abc", "", "x", "12abc", " 3", "1 2", "0.25 0.75" };
+
+/* ------------------------------------------------ set A, then set B */
+/*
+ * The value a property had before does not influence what an accepted set
+ * makes of it: "set A; set B" on an object equals "set B" on its twin (typed
+ * and text sources, every setter name).
+ */
+static void do_set_twice(int k, ostore *o, vf_rng *r)
+{
+	static const char *cliptexts[] = { "x", "y", "z", "xy", "xz", "yz", "xyz", "" };
+	const pname *pn = &names[k].n[vf_below(r, (uint32_t) names[k].cnt)];
+	int t = snap_find(&fresh[k], pn->get), text = (int) vf_below(r, 2), ra, rb, rt;
+	ostore tw;
+	owrap w, w2;
+	char ctx[400];
+
+	VF_CHECK(t >= 0, "model:get:name-missing", "%s: property '%s' is not listed by get", kname[k], pn->get);
+	w._obj._vptr = &owrap_vptr; w.k = k; w.o = o;
+	w2._obj._vptr = &owrap_vptr; w2.k = k; w2.o = &tw;
+	o_init(k, &tw, o);
+	vf_fp_u64(0x2b + text); vf_fp(pn->set, strlen(pn->set));
+	if (text) {
+		const char *a, *b;
+		for (int i = 0; i < 2; i++) {
+			const char *txt;
+			if (!strcmp(pn->get, "clip")) txt = cliptexts[vf_below(r, 8)];
+			else if (!strcmp(pn->get, "align")) txt = vf_chance(r, 1, 2) ? "be" : "zzb";
+			else if (!strcmp(pn->get, "intervals")) txt = vf_chance(r, 1, 3) ? "log" : numtexts[4 + vf_below(r, 6)];
+			else if (fresh[k].p[t].isstr) txt = vf_chance(r, 1, 2) ? "first text" : "another, longer text for the second assignment";
+			else if (fresh[k].p[t].type == mpt_color_typeid()) txt = coltexts[vf_below(r, 15)];
+			else txt = numtexts[vf_below(r, sizeof(numtexts) / sizeof(*numtexts))];
+			if (!i) a = txt; else b = txt;
+		}
+		snprintf(ctx, sizeof(ctx), "%s \"%s\": text \"%.40s\" then \"%.40s\"", kname[k], pn->set, a, b);
+		vf_log("%s", ctx);
+		vf_fp(a, strlen(a)); vf_fp(b, strlen(b));
+		vf_at("mpt_object_set_string");
+		ra = mpt_object_set_string(&w._obj, pn->set, a, 0);
+		rb = mpt_object_set_string(&w._obj, pn->set, b, 0);
+		rt = mpt_object_set_string(&w2._obj, pn->set, b, 0);
+		vf_count("mpt_object_set_string", 3);
+	} else {
+		hconv ha, hb, hb2;
+		make_value(&ha, (int) vf_below(r, NVCLASS - 1), 0, 0, r);
+		if (ha.vclass == VStr && ha.str == strbuf) { static char keep[400]; snprintf(keep, sizeof(keep), "%s", strbuf); ha.str = keep; }
+		make_value(&hb, (int) vf_below(r, NVCLASS - 1), 0, 0, r);
+		/* text that the number-or-"log" property accepts without effect (finding in the notes) is no second value */
+		if (!strcmp(pn->get, "intervals") && hb.vclass == VStr) { hconv_init(&hb); hb.vclass = VInt; hb.i = 1 + vf_below(r, 9); hb.origin = 'y'; }
+		hb2 = hb;
+		snprintf(ctx, sizeof(ctx), "%s \"%s\": %.80s then %.80s", kname[k], pn->set, hconv_str(&ha), hconv_str(&hb));
+		vf_log("%s", ctx);
+		vf_fp(&ha.i, sizeof(ha.i)); vf_fp(&ha.f, sizeof(ha.f)); vf_fp(&hb.i, sizeof(hb.i)); vf_fp(&hb.f, sizeof(hb.f));
+		ra = o_set(k, o, pn->set, &ha._conv);
+		rb = o_set(k, o, pn->set, &hb._conv);
+		rt = o_set(k, &tw, pn->set, &hb2._conv);
+	}
+	vf_log("  -> A %d, B %d, B alone %d", ra, rb, rt);
+	VF_CHECK((rb < 0) == (rt < 0), "model:set:depends-on-previous-value", "%s: the second set returns %d, the same set on the twin that did not get the first one %d", ctx, rb, rt);
+	if (rb >= 0) {
+		snap a, b;
+		snap_take(k, o, &a); snap_take(k, &tw, &b);
+		for (int i = 0; i < a.n; i++) if (!pval_eq(&a.p[i], &b.p[i])) vf_fail("model:set:depends-on-previous-value", "%s: '%s' is %s, on the twin that did not get the first value %s", ctx, a.p[i].name, pval_str(&a.p[i]), pval_str(&b.p[i]));
+		snap_free(&a); snap_free(&b);
+		if (ra >= 0) vf_count("monitor:set-twice-both-accepted", 1);
+	}
+	vf_count("monitor:set-twice", 1);
+	o_fini(k, &tw);
+}
+
 /* ---------------------------------------------------------------- get by name */
 static void do_get_names(int k, const ostore *o, vf_rng *r)
 {
@@ -1149,7 +1219,6 @@ static void case_grid(uint64_t idx, vf_rng *r)
 	vf_sample("grid: %s property '%s' (reads as '%s') := %s, then reset, then an unknown name", kname[k], pn->set, pn->get, hconv_str(&h));
 }
 /* PRNG sequences */
-static const char *numtexts[] = { "1e39", "-3.5e38", "1e300", "3.4e38", "0", "1", "5", "7", "10", "255", "256", "300", "-1", "70000", "0.5", "0.25", "1.5", "2.5e3", "1e-3", "abc", "", "x", "12abc", " 3", "1 2", "0.25 0.75" };
 static void case_sequence(vf_rng *r)
 {
 	int k = (int) vf_below(r, NKinds), steps = vf_range(r, 5, 40);
@@ -1200,10 +1269,11 @@ static void case_sequence(vf_rng *r)
 			if (l + 30 < sizeof(desc)) l += snprintf(desc + l, sizeof(desc) - l, " %d=clear", w);
 		}
 		else if (op < 16) {
-			switch (vf_below(r, 4)) {
+			switch (vf_below(r, 6)) {
 			case 0: do_get_names(k, &o[w], r); break;
 			case 1: do_foreign(k, &o[w], r); vf_fp_u64(0xf0); break;
-			default: do_entry(k, &o[w], r);
+			case 2: do_entry(k, &o[w], r); break;
+			default: do_set_twice(k, &o[w], r);
 			}
 		}
 		else if (op < 17) {
